@@ -37,6 +37,20 @@ def _corrupt_ctx(e):
 
 
 STATEFUL = {"Trace_Ctx", "Trace_Reg"}
+
+
+def _tag_serde(e):
+    n = 0
+    if e.get("ev") == "de":
+        for x in e.get("entries", []):
+            if x.get("kind") == "lists":
+                n = len(x.get("entries", []))
+    elif e.get("ev") == "rt":
+        n = len(e.get("ctx", {}).get("lists", []))
+    return "lists=%d" % n
+
+
+SIG_TAGS = {"Trace_Serde": _tag_serde}
 def _corrupt_reg(e):
     if e.get("ev") == "add" and e["res"] == "ok":
         e["res"] = "FieldRedefinition"
@@ -53,8 +67,15 @@ def _corrupt_types(e):
     return False
 
 
+def _corrupt_serde(e):
+    if e.get("ev") == "rt" and e["ways"]["str"]["out"] == "ok" and e["ctx"]["vals"]:
+        e["ways"]["str"]["ctx"]["vals"][0] = {"t": "bool", "v": True} if e["ctx"]["vals"][0].get("t") != "bool" else {"t": "nil"}
+        return True
+    return False
+
+
 CORRUPTORS = {"Trace_Lang": _corrupt_lang, "Trace_Ctx": _corrupt_ctx, "Trace_Reg": _corrupt_reg,
-              "Trace_Types": _corrupt_types}
+              "Trace_Types": _corrupt_types, "Trace_Serde": _corrupt_serde}
 
 
 def _vc_lang(v):
@@ -190,6 +211,20 @@ CHECKS = {
         assumptions=[],
         stages=[
             lang("nesting", "c13", 4000, 100000, ["--nctx", "2"], shards=SH),
+        ],
+    ),
+    "C14": dict(
+        level="model_checking",
+        rule="random contexts over a rich scheme with lists, a list-free scheme and a field-free scheme: the serialized text must "
+             "denote the document EncFields/EncLists prescribes; fed back through from_str, from_slice, from_reader, a Value tree "
+             "and the C API it must give an equal context; one structural mutation per document (type swaps, nesting changes, "
+             "pair arity, byte 256, unknown field, duplicate field, $lists entries with unknown/deep/unregistered types or missing "
+             "data, non-object top level) must be accepted iff the type-directed decoder DecEntries accepts it, never panic and "
+             "never store a wrong-typed value; strict prefixes are rejected",
+        assumptions=["strings that parse as IP addresses denote IP nodes (generators never put such text into byte-string fields)",
+                     "matcher data of the harness list is opaque to the specification"],
+        stages=[
+            trace("serde", "Trace_Serde", ["gen-serde"], 2400, 120000, shards=SH),
         ],
     ),
     "C15": dict(
